@@ -57,7 +57,13 @@ META = {
             "C16_checked_flags_transparent: with `checked` set only after complete success, re-checking the same "
             "object, a copy, or a fresh deserialisation gives the sequential verdict; every harness round does exactly "
             "that (3x same object, copy, fresh bytes) and planted invalid payloads include valid-tx/wrong-merkle-path "
-            "ATVs and VTBs and wrong-merkle-root blocks of proof.",
+            "ATVs and VTBs and wrong-merkle-root blocks of proof. Several callers on one validator: "
+            "C16_multi_client_verdict (tasks tagged by client, pool abstracted to the bag of posted tasks, all "
+            "interleavings): every returned client has the sequential verdict of its own payloads and none throws; "
+            "C16_clear_restarts_pool_refuted documents what a pool-restarting clear() would do. The real-thread runs "
+            "include a concurrent-callers stage: 2..4 caller threads share one validator, each with its own PopData "
+            "(valid / first / middle / last invalid / duplicates), per-caller oracle = one-by-one verdict of its own "
+            "PopData, no exception, return within a 300 s watchdog, PopData destroyed right after return.",
     "note": "Honest limit: the theorems cover the scheduling logic of the model for all schedules; data-race freedom and "
             "memory safety of the compiled C++ (thread pool, MPMC queue, futures) are observed by sanitizers, not proved; the step-level "
             "ring theorems assume sequentially consistent atomics. "
@@ -428,7 +434,8 @@ def run(ctx):
     ctx.cov["partial_theorems"] = ["C16_ring_refines_fifo_partial (one push/pop at a time; the concurrent CAS interleavings "
                                     "are covered by C16_ring_linearizable & co. under sequentially consistent atomics; "
                                     "memory-order weakening and the 2^64 position wrap are not modelled)", "C16_no_deadlock_partial (enabledness only, no termination measure)"]
-    ctx.cov["refuted_theorems"] = ["C16_released_on_return_v0_refuted (old code, repaired by /repo 9e8bd1f5)"]
+    ctx.cov["refuted_theorems"] = ["C16_released_on_return_v0_refuted (old code, repaired by /repo 9e8bd1f5)",
+                                    "C16_clear_restarts_pool_refuted (hypothetical clear() = stop(); start(), documentation)"]
     ctx.cov["trusted_base"] = [
         "modelled, not verified: std::future/packaged_task, std::thread (one-shot promise assumed); the MPMC bounded queue "
         "is verified at step level against the bounded FIFO under sequentially consistent atomics and unbounded counters "
